@@ -124,25 +124,75 @@ def circle(prog, rep):
     rep.sample({"rule": "R05.1", "circle": "|center_2x - 2p|^2 < threshold on both sides"})
 
 
+from rules.c16_tables import _artifact
+
+
+def _point_comps(t):
+    t = strip_refs(t)
+    if t[0] == "agg" and str(t[1]).endswith("Point::Point") and len(t[2]) == 2:
+        return t[2]
+    if t[0] == "call" and t[1].endswith("Point::new") and len(t[3]) == 2:
+        return t[3]
+    return None
+
+
+def _is_centred(pt, p_of, tl_of, ext_of):
+    """pt == 2 * p - (2 * top_left + (extent - 1)) per axis (saturating), as polynomial normal forms"""
+    from rules.c16_tables import nf
+    comps = _point_comps(pt)
+    if comps is None:
+        return False
+    for i in (0, 1):
+        want = ("bin", "Sub", ("bin", "Mul", p_of(i), ("const", 2)),
+                ("bin", "Add", ("bin", "Mul", tl_of(i), ("const", 2)), ("call", "core::num::<impl u32>::saturating_sub", (), (ext_of(i), ("const", 1)))))
+        if nf(comps[i]) is None or nf(comps[i]) != nf(want):
+            return False
+    return True
+
+
+def _is_centre2x(t, tl_of, ext_of):
+    from rules.c16_tables import nf
+    comps = _point_comps(t)
+    if comps is None:
+        return False
+    return all(nf(comps[i]) is not None and nf(comps[i]) == nf(("bin", "Add", ("bin", "Mul", tl_of(i), ("const", 2)), ("call", "core::num::<impl u32>::saturating_sub", (), (ext_of(i), ("const", 1))))) for i in (0, 1))
+
+
 def ellipse(prog, rep):
+    """the wiring is compared with every crate-local callee inlined except the predicate itself (EllipseContains), so a
+    centre method that has been inlined, moved or turned into a free function makes no difference"""
     E = PRIM + "ellipse::Ellipse"
+    keep = lambda g: "EllipseContains" in g.path or g.name in ("rows", "columns", "bounding_box")
+    Pin = Paths(prog, inline=lambda g: not keep(g), depth=6)
     co = prog.method1(E, "contains", PRIM + "ContainsPoint")
-    ro = strip_refs(Origins(co).return_origin())
-    m = find(ro, ("call", "*EllipseContains::contains", "_", ("?ec", "?pt")))
-    ok = bool(m)
-    if ok:
-        ec, pt = m[0][1]["?ec"], m[0][1]["?pt"]
-        ok = match(ec, ("call", "*EllipseContains::new", "_", (("field", P(1, "self"), field_index(prog, E, "size")),))) is not None
-        ok = ok and match(pt, ("call", "*Sub>::sub", "_", (("call", "*Mul<i32>>::mul", "_", (P(2, "point"), ("const", 2))), ("call", "*Ellipse::center_2x", "_", (P(1, "self"),))))) is not None
-    rep.check(ok, "R05.1", "ellipse:contains", "Ellipse::contains must be EllipseContains::new(self.size).contains(2p - center_2x()); found %s" % show(ro, maxd=6), at=co.span, fn=co.path)
+    sz_i = field_index(prog, E, "size")
+    tl_i = field_index(prog, E, "top_left")
+    ok, found = False, "?"
+    try:
+        ss = Pin.of(co)
+        found = "; ".join(show(x.ret, maxd=5) for x in ss[:2])
+        ok = len(ss) == 1 and not [f for f in ss[0].facts if not _artifact(f)]
+        if ok:
+            m = match(strip_refs(ss[0].ret), ("call", "*EllipseContains::contains", "_", ("?ec", "?pt")))
+            ok = m is not None and match(strip_refs(m["?ec"]), ("call", "*EllipseContains::new", "_", (("field", P(1, "self"), sz_i),))) is not None \
+                and _is_centred(m["?pt"], lambda i: ("field", P(2, "point"), i), lambda i: ("field", ("field", P(1, "self"), tl_i), i), lambda i: ("field", ("field", P(1, "self"), sz_i), i))
+    except Unsupported as e:
+        found = "cannot summarise: %s" % e
+    rep.check(ok, "R05.1", "ellipse:contains", "Ellipse::contains must be EllipseContains::new(self.size).contains(2p - center_2x()); found %s" % found, at=co.span, fn=co.path)
     SL = PRIM + "ellipse::points::Scanlines"
     nw = prog.method1(SL, "new", None)
-    init = strip_refs(Origins(nw).return_origin())
     fidx = {f["name"]: i for i, f in enumerate(prog.adts[SL]["variants"][0]["fields"])}
-    ok = init[0] == "agg"
-    if ok:
-        ok = match(init[2][fidx["center_2x"]], ("call", "*Ellipse::center_2x", "_", (P(1, "ellipse"),))) is not None
-        ok = ok and match(init[2][fidx["ellipse_contains"]] if "ellipse_contains" in fidx else ("x",), ("call", "*EllipseContains::new", "_", (("field", P(1, "ellipse"), field_index(prog, E, "size")),))) is not None
+    ok, init = False, ("const", "?")
+    try:
+        ss = Pin.of(nw)
+        ok = len(ss) == 1 and not [f for f in ss[0].facts if not _artifact(f)] and ss[0].ret[0] == "agg"
+        if ok:
+            init = ss[0].ret
+            el = P(1, "ellipse")
+            ok = _is_centre2x(init[2][fidx["center_2x"]], lambda i: ("field", ("field", el, tl_i), i), lambda i: ("field", ("field", el, sz_i), i))
+            ok = ok and match(strip_refs(init[2][fidx["ellipse_contains"]]) if "ellipse_contains" in fidx else ("x",), ("call", "*EllipseContains::new", "_", (("field", el, sz_i),))) is not None
+    except Unsupported as e:
+        pass
     rep.check(ok, "R05.1", "ellipse:scanlines-init", "the row search must be initialised with the same ellipse's center_2x() and EllipseContains::new(size); found %s" % show(init, maxd=4), at=nw.span, fn=nw.path)
     nx = prog.method1(SL, "next", "core::iter::traits::iterator::Iterator")
     n = 0
@@ -170,26 +220,35 @@ def sector(prog, rep):
     S = PRIM + "sector::Sector"
     C = PRIM + "circle::Circle"
     co = prog.method1(S, "contains", PRIM + "ContainsPoint")
-    org = Origins(co)
     angs = (("field", P(1, "self"), field_index(prog, S, "angle_start")), ("field", P(1, "self"), field_index(prog, S, "angle_sweep")))
+    # summarised with everything inlined except the two predicates (the circle's contains and PlaneSector): helper
+    # methods (to_circle, center_2x, plane_sector ..) may come and go
+    keep = lambda g: "PlaneSector" in g.path or (g.name == "contains" and "circle::Circle" in g.path)
     ok_paths = 0
     good = True
-    for lits, ret, path in decisions(co):
-        r = strip_refs(ret)
-        circ = None
-        for d, lit in lits:
-            d = strip_refs(d)
-            m = match(d, ("call", "*Circle as embedded_graphics::primitives::ContainsPoint>::contains", "_", (("call", "*Sector::to_circle", "_", (P(1, "self"),)), P(2, "point"))))
-            if m is not None:
-                circ = lit_truth(lit)
-        if circ is True:
-            ok_paths += 1
-            m = match(r, ("call", "*PlaneSector::contains", "_", (("call", "*PlaneSector::new", "_", angs), ("call", "*Sub>::sub", "_", (("call", "*Mul<i32>>::mul", "_", (P(2, "point"), ("const", 2))), ("call", "*Sector::center_2x", "_", (P(1, "self"),)))))))
-            good = good and m is not None
-        elif circ is False:
-            good = good and r == ("const", False)
-        else:
-            good = False
+    tl_i, d_i = field_index(prog, S, "top_left"), field_index(prog, S, "diameter")
+    me = P(1, "self")
+    try:
+        for sm in Paths(prog, inline=lambda g: not keep(g), depth=6).of(co):
+            cf = [f for f in sm.facts if f[0] in ("true", "false") and f[1][0] == "call" and f[1][1].endswith("ContainsPoint>::contains") and "Circle" in f[1][1]]
+            rest = [f for f in sm.facts if f not in cf and not _artifact(f)]
+            if len(cf) != 1 or rest:
+                good = False
+                continue
+            c_, p_ = [strip_refs(x) for x in cf[0][1][3]]
+            circ_ok = p_ == P(2, "point") and ((c_[0] == "agg" and str(c_[1]).endswith("Circle::Circle") and [strip_refs(x) for x in c_[2]] == [("field", me, tl_i), ("field", me, d_i)])
+                                               or match(c_, ("call", "*Circle::new", "_", (("field", me, tl_i), ("field", me, d_i)))) is not None
+                                               or match(c_, ("call", "*Sector::to_circle", "_", (me,))) is not None)
+            good = good and circ_ok
+            r = strip_refs(sm.ret)
+            if cf[0][0] == "true":
+                ok_paths += 1
+                m = match(r, ("call", "*PlaneSector::contains", "_", (("call", "*PlaneSector::new", "_", angs), "?pt")))
+                good = good and m is not None and _is_centred(m["?pt"], lambda i: ("field", P(2, "point"), i), lambda i: ("field", ("field", me, tl_i), i), lambda i: ("field", me, d_i))
+            else:
+                good = good and r == ("const", False)
+    except Unsupported as e:
+        good = False
     rep.check(good and ok_paths == 1, "R05.1", "sector:contains", "Sector::contains must be to_circle().contains(p) && PlaneSector::new(angle_start, angle_sweep).contains(2p - center_2x())", at=co.span, fn=co.path)
     PT = PRIM + "sector::points::Points"
     nw = prog.method1(PT, "new", None)
